@@ -211,7 +211,7 @@ def _get_unused_imports(ast_tree: ast.Module) -> Collection[str]:
     Returns:
         Collection[str]: A collection of names that are imported but never used.
     """
-    imports = tracing.get_imported_names(ast_tree)
+    imports = tracing.get_imported_names(ast_tree) - {"*"}
 
     names = {node.id for node in core.walk(ast_tree, ast.Name(ctx=ast.Load))}
     for node in core.walk(ast_tree, ast.Attribute):
